@@ -83,7 +83,8 @@ def day_frac(val1, val2, factor=None, divisor=None):
     frac += extra + err12
     # Our fraction can now have gotten >0.5 or <-0.5, which means we would
     # loose one bit of precision. So, correct for that.
-    excess = np.floor(frac + 0.5)
+    # (Compare rather than round frac + 0.5, which is 1 for frac = 0.5 - 2**-54.)
+    excess = np.where(frac >= 0.5, 1.0, np.where(frac < -0.5, -1.0, 0.0))
     day += excess
     extra, frac = two_sum(sum12, -day)
     frac += extra + err12
